@@ -124,6 +124,15 @@ def symbolic_sum(a):
     snap = a.snapshot()
     v = c.fresh("sum", "real" if a.kind == "f" else "int")
     tag_sum(v, a.shape[0], lambda j: snap(j))
+    if a.kind == "b":
+        # a count of true entries: between 0 and the length, and at least 1 as soon as some entry is true
+        from . import spec as S
+        from .core import and_, implies
+
+        n = a.shape[0]
+        c.assume(and_(v >= 0, v <= n))
+        S.assume(S.Forall((n,), lambda j: implies(snap(j), v >= 1), name="count.at_least_one_if_some_entry_is_true"))
+        c.used_axioms.add("count of true entries: 0 <= count <= length; some entry true => count >= 1")
     return v
 
 
